@@ -1,7 +1,7 @@
 PROP = dict(
     properties="Properties/C14.v",
     harness_mods=["Harness/C14.v"],
-    runs=[dict(cmd="c14", quick=240, thorough=6000, timeout=3000)],
+    runs=[dict(cmd="c14", quick=480, thorough=6000, timeout=3000)],
     trusted_base=[
         "hand-written Gallina source semantics coq/Lang/MiniGo.v of the fragment (ints, bools, scoped locals, && || short-circuit, if/for/break/continue/return, calls, recursion); tied to the Go toolchain by the 'frag' runs (go build of the printed program)",
         "hand-written Gallina target machine coq/Lang/Target.v (subset of NeoVM); tied to pkg/vm by running the real compiler's bytecode on both in the 'frag' runs",
